@@ -96,6 +96,7 @@ func (w *worker) ask(line string, timeout time.Duration) (string, string) {
 }
 
 func queryEngine(args []string) error {
+	dottedLabels = true
 	c := parseCommon("query", args)
 	r := newRng(c.seed)
 	ecsHeavy = c.mode == "ecs"
